@@ -60,7 +60,9 @@ func safeRun(p *Prop, c string) string {
 var caseTimeout = 10 * time.Second
 
 func main() {
-	log.SetOutput(io.Discard) // the code under test logs freely
+	if os.Getenv("VERIF_LOG") == "" {
+		log.SetOutput(io.Discard) // the code under test logs freely
+	}
 	if len(os.Args) < 3 {
 		fmt.Fprintln(os.Stderr, "usage: siot-diff gen|replay <prop> [-seed N] [-n K] [-tier quick|thorough]")
 		os.Exit(2)
